@@ -395,6 +395,15 @@ def d4(ctx):
     ctx.floor("private-occurrence functions", n, 2)
 
 
+def _counter_place(a, lhs):
+    """the assigned place is the counter m.1 — written as a field of the pair, or through a reference bound to it by a destructuring
+    parameter pattern (`(renaming, next): &mut (SlotMap, u32)`)"""
+    pf = mir.place_fields(lhs)
+    if pf and pf[-1][1] == "1":
+        return True
+    return lhs["p"] == ["*"] and role_str(strip_role(a.role_of_local(lhs["l"]))) == "m.1"
+
+
 @rule("N2", doc="shape numbering depends only on the occurrence counter (shared with C11)", once=True)
 def n2(ctx):
     crate = ctx.lib("default")
@@ -407,7 +416,7 @@ def n2(ctx):
     ok = len(num) == 1 and strip_role(a.role_of_operand(num[0].args[0])) == ("field", ("param", "m"), "1")
     ctx.check(ok, "new-number-from-counter", "add_slot names the occurrence Slot::numeric(m.1): the counter, never the old slot", "add_slot derives the new name from %s" % (role_str(a.role_of_operand(num[0].args[0])) if num else "no Slot::numeric call"), where_of(a))
     # the counter is bumped by one, the mapping old -> new is recorded, the occurrence is overwritten
-    inc = [s for bi, si, s in a.statements() if s["k"] == "assign" and mir.place_fields(s["lhs"]) and mir.place_fields(s["lhs"])[-1][1] == "1" and role_str(a.role_of_rvalue(s["rv"])).startswith("(m.1 AddWithOverflow const 1_u32)")]
+    inc = [s for bi, si, s in a.statements() if s["k"] == "assign" and _counter_place(a, s["lhs"]) and role_str(a.role_of_rvalue(s["rv"])).startswith("(m.1 AddWithOverflow const 1_u32)")]
     ins = [c for c in a.calls if c.callee and c.callee.name == "insert"]
     def is_numeric(r):
         r = strip_role(r)
@@ -419,7 +428,7 @@ def n2(ctx):
         st = [s for bi, si, s in a.statements() if s["k"] == "assign" and not s["lhs"]["p"] and s["lhs"]["l"] == 0]
     # what is written over the occurrence and recorded is the number itself on every path (not "the old name in some case")
     oki = oki and all(is_numeric(a.role_of_rvalue(s_["rv"])) for s_ in st)
-    incb = [bi for bi, si, s in a.statements() if s["k"] == "assign" and mir.place_fields(s["lhs"]) and mir.place_fields(s["lhs"])[-1][1] == "1" and role_str(a.role_of_rvalue(s["rv"])).startswith("(m.1 AddWithOverflow const 1_u32)")]
+    incb = [bi for bi, si, s in a.statements() if s["k"] == "assign" and _counter_place(a, s["lhs"]) and role_str(a.role_of_rvalue(s["rv"])).startswith("(m.1 AddWithOverflow const 1_u32)")]
     insb = [c.bb for c in ins]
     ctx.check(len(incb) == 1 and a.must_pass([0], a.return_blocks(), set(incb)) and bool(insb) and a.must_pass([0], a.return_blocks(), set(insb)), "counter-step-unconditional",
               "every call of add_slot uses up a number and records old -> new: the bump and the insert lie on every path to the return",
